@@ -57,6 +57,8 @@ EXPRESSIONS (e : T means "e has inferred type T")
   sorted(l) on str, "sep".join(l)                               py_sorted_str (byte-wise order), py_str_join;  l.sort() as a statement on
                                                                 a never-aliased local list of str: re-binding to py_sorted_str l
   h(e, ..) for a module-level function h of the same file that consists of one `return e'`: e' with the arguments substituted
+  h(a, b) as a statement, for a module-level procedure h(a, b) -> None without `return`, called with exactly its parameter names:
+                                                                its body in place (raise sites 100 + ordinal)
   compress(l, s) chain(l1, l2) accumulate(l) pairwise(l)       py_compress, ++, py_accumulate, py_pairwise
   range(n), range(a, b)                                        py_range
   t.size() t.numel() t.narrow(0, a, n) t.view(l)               t_shape t_len t_narrow0 t_view (first argument of narrow must be 0)
@@ -175,6 +177,8 @@ class Target:
     site_base: int = 0             # added to the ordinals of this function's raise/assert sites (unique sites across functions)
     calls: dict = field(default_factory=dict)        # source text of a callee expression -> coq_name of a function translated earlier in the run
     state: list = field(default_factory=list)        # [(source text, name, type)]: lists owned by `self` that the function updates in place
+    drop: list = field(default_factory=list)         # mode "prefix": source-text prefixes of statements left out of the slice (they may only
+                                                     # write names that no kept statement reads; the result is "if the function completes")
     actions: dict = field(default_factory=dict)      # mode "decision": source text of a statement with (tensor) side effects -> its tag (int)
     foreign: dict = field(default_factory=dict)      # source text of a foreign function -> (Gallina function, [argument types], result type,
                                                      # exception class or None): a parameter of the generated module, pure and total
@@ -184,6 +188,21 @@ class Target:
 def is_list(t): return t.startswith("list ")
 def is_dict(t): return t.startswith("dict ")                 # dict (K * V): Gallina list (K * V), the items in insertion order
 def dict_kv(t): return t[6:-1].split(" * ", 1)
+def split_prod(t):
+    """components of a product type "(A * (B * C) * D)" (top level only); [t] for anything else"""
+    if not (t.startswith("(") and t.endswith(")")):
+        return [t]
+    out, depth, cur = [], 0, ""
+    for tok in t[1:-1].split(" "):
+        depth += tok.count("(") - tok.count(")")
+        if tok == "*" and depth == 0:
+            out.append(cur.strip())
+            cur = ""
+        else:
+            cur += " " + tok
+    return out + [cur.strip()] if out else [t]
+
+
 def gtype(t): return re.sub(r"\bview\b", "py_view", re.sub(r"\bstring\b", "String.string", t.replace("dict (", "list (")))      # the Gallina spelling of a type
 def same(t1, t2): return t1 == t2 or (is_list(t1) and is_list(t2) and "list ?" in (t1, t2)) or (is_dict(t1) and is_dict(t2) and "dict ?" in (t1, t2))     # `list ?`: an empty display, element type open
 def elem(t): return t[5:].strip() if not t[5:].startswith("(") else t[5:]
@@ -201,6 +220,7 @@ class Fn:
         self.ret_type = None
         self.mutated: set = set()
         self.state = [n for _, n, _ in tgt.state]
+        self.loop_ends: list = []  # innermost last: what `continue` does
         self.ret_unit = False      # the function is annotated `-> None`
         self.inline: dict = {}     # exprs mode: name -> the expression bound to it just before (see Translator.exprs)
 
@@ -224,6 +244,22 @@ class Fn:
         if isinstance(node, ast.UnaryOp) and isinstance(node.op, ast.USub):
             node = node.operand
         return isinstance(node, ast.Constant) and isinstance(node.value, (int, float))
+
+    def pattern(self, target, ty, node):
+        """a for / unpacking target (a name, or a possibly nested tuple of names) against a (product) type: Gallina pattern, bindings"""
+        if isinstance(target, ast.Name):
+            if ty.startswith("(") and ty.endswith(")") and split_prod(ty) == [ty] and ty.count("(") == 1:
+                ty = ty[1:-1]                              # (option Z) -> option Z
+            return ident(target.id), {target.id: ty}
+        parts = split_prod(ty)
+        if not isinstance(target, ast.Tuple) or len(parts) != len(target.elts) or len(parts) < 2:
+            raise Untranslatable(node, f"target `{unp(target)}` does not match a {ty}")
+        pats, binds = [], {}
+        for e, t in zip(target.elts, parts):
+            p, b = self.pattern(e, t, node)
+            pats.append(p)
+            binds.update(b)
+        return "(" + ", ".join(pats) + ")", binds
 
     def atom(self, node):
         s = unp(node)
@@ -368,6 +404,11 @@ class Fn:
         return f"(negb {c})" if neg else c
 
     def e_Compare(self, n, env, want):
+        if len(n.ops) == 1 and isinstance(n.ops[0], (ast.Is, ast.IsNot)) and isinstance(n.comparators[0], ast.Constant) and n.comparators[0].value is None:
+            b, c, t = self.expr(n.left, env)                                        # x is None / x is not None for an Optional x
+            if not t.startswith("option "):
+                raise Untranslatable(n, f"`is None` on a {t}")
+            return b, (f"(py_is_none {c})" if isinstance(n.ops[0], ast.Is) else f"(negb (py_is_none {c}))"), "bool"
         if len(n.ops) == 1 and isinstance(n.ops[0], (ast.In, ast.NotIn)):             # k in d / k not in d on a dict
             bk, ck, tk = self.expr(n.left, env)
             bd, cd, td = self.expr(n.comparators[0], env)
@@ -442,7 +483,9 @@ class Fn:
             return binds, "(" + " ++ ".join(parts) + ")", ty
         b, cs, ts = self.seq_of(n.elts, env)
         if not cs:
-            return [], "[]", (want if want and is_list(want) else "list ?")
+            if want and is_list(want) and want != "list ?":
+                return [], f"(@nil ({gtype(elem(want))}))", want         # the annotation fixes the element type
+            return [], "[]", "list ?"
         if len(set(ts)) != 1:
             raise Untranslatable(n, f"list display with element types {ts}")
         return b, "[" + "; ".join(cs) + "]", "list " + ts[0]
@@ -474,8 +517,13 @@ class Fn:
     def e_Subscript(self, n, env, want):
         b, c, t = self.expr(n.value, env)
         if isinstance(n.slice, ast.Slice):
+            if is_list(t) and n.slice.lower is not None and n.slice.upper is not None and n.slice.step is None:      # x[a:b]
+                bi, cs, ts = self.seq_of([n.slice.lower, n.slice.upper], env)
+                if ts != ["Z", "Z"]:
+                    raise Untranslatable(n, "slice bounds are not ints")
+                return b + bi, f"(py_slice {c} {cs[0]} {cs[1]})", t
             if not is_list(t) or n.slice.lower is None or n.slice.upper is not None or n.slice.step is not None:
-                raise Untranslatable(n, "only slices x[a:] of sequences are in the subset")
+                raise Untranslatable(n, "only slices x[a:] and x[a:b] of sequences are in the subset")
             bi, ci, ti = self.expr(n.slice.lower, env)
             if ti != "Z":
                 raise Untranslatable(n, "slice bound is not an int")
@@ -662,6 +710,16 @@ class Fn:
             if t != "list Z":
                 raise Untranslatable(n, f"len(set(..)) of a {t}")
             return b, f"(py_len_set {c})", "Z"
+        if f == "zip" and 2 <= len(args) <= 4 and [k.arg for k in kws] == ["strict"] and isinstance(kws[0].value, ast.Constant) and kws[0].value.value is True:
+            b, cs, ts = self.seq_of(args, env)                                      # zip(a, b, .., strict=True): ValueError on different lengths
+            if not all(is_list(t) for t in ts):
+                raise Untranslatable(n, f"zip of {ts}")
+            code = cs[0]
+            for c in cs[1:]:
+                tmp = self.fresh()
+                b = b + [(tmp, f"(py_zip_strict {code} {c})")]
+                code = tmp
+            return b, code, "list (" + " * ".join(elem(t) for t in ts) + ")"
         if f == "enumerate" and len(args) == 1 and not kws:
             b, c, t = self.expr(args[0], env)
             if not is_list(t):
@@ -840,7 +898,14 @@ class Fn:
             return k(env)
         s, rest = stmts[0], stmts[1:]
         nxt = lambda e: self.block(rest, e, k)                                    # noqa: E731
-        tag = next((t for pre, t in self.tgt.actions.items() if unp(s).startswith(pre)), None) if self.tgt.actions else None
+        if any(unp(s).startswith(pre) for pre in self.tgt.drop):                  # a statement left out of the slice (checked in prefix())
+            return nxt(env)
+        if self.tgt.actions and isinstance(s, ast.Assign) and isinstance(s.value, ast.IfExp):
+            # decision mode: x = a if c else b  is  if c: x = a  else: x = b  (so that the two assignments can be named as actions)
+            mk = lambda v: ast.copy_location(ast.Assign(targets=s.targets, value=v), s)         # noqa: E731
+            s = ast.fix_missing_locations(ast.copy_location(ast.If(test=s.value.test, body=[mk(s.value.body)], orelse=[mk(s.value.orelse)]), s))
+        callee = unp(s.value.func) if isinstance(s, (ast.Assign, ast.Expr, ast.Return)) and isinstance(s.value, ast.Call) else None
+        tag = next((t for pre, t in self.tgt.actions.items() if unp(s).startswith(pre) or callee == pre), None) if self.tgt.actions else None
         if tag is not None and isinstance(s, (ast.Assign, ast.Expr, ast.Return)):  # decision mode: a statement with (tensor) side effects
             code = f"let acts_ := (acts_ ++ [({tag})]) in\n"                       # is recorded by its tag; what it binds is not a value here
             return code + ("Ret (acts_, true)" if isinstance(s, ast.Return) else nxt(env))
@@ -1001,12 +1066,27 @@ class Fn:
         return h
 
     def s_Continue(self, s, env, nxt):
+        if self.loop_ends:
+            return self.loop_ends[-1](env)                 # the rest of the body is skipped: the loop state as it is now
         if not self.tgt.actions:
-            raise Untranslatable(s, "continue outside the decision mode")
+            raise Untranslatable(s, "continue outside a translated loop / the decision mode")
         return "Ret (acts_, true)"
 
     def s_Expr(self, s, env, nxt):
         v = s.value
+        if isinstance(v, ast.Call) and isinstance(v.func, ast.Name) and v.func.id in self.tr.procs and v.func.id not in env:
+            # h(a, b) as a statement, h a module-level procedure (`-> None`, no `return`) of the same file called with exactly its own
+            # parameter names: its body is translated in place (its raise sites are numbered 100 + ordinal)
+            h = self.tr.procs[v.func.id]
+            if v.keywords or [unp(a) for a in v.args] != [a.arg for a in h.args.args]:
+                raise Untranslatable(s, f"procedure {v.func.id} is not called with its own parameter names")
+            for k, site in Translator.sites_of(h).items():
+                self.sites.setdefault(k, 100 + site)
+            procs, self.tr.procs = self.tr.procs, {k: x for k, x in self.tr.procs.items() if k != v.func.id}
+            try:
+                return self.block(h.body, env, nxt)
+            finally:
+                self.tr.procs = procs
         if isinstance(v, ast.Call) and unp(v.func) == "heapq.heapify":
             h = self.heap_arg(v, env, 1)
             return f"let {ident(h)} := pq_heapify {ident(h)} in\n{nxt({**env, h: HEAP})}"
@@ -1034,6 +1114,15 @@ class Fn:
             return nxt(env)
         if isinstance(v, ast.Call) and unp(v.func) in self.tgt.ignore_calls:
             return nxt(env)
+        if isinstance(v, ast.Call) and isinstance(v.func, ast.Attribute) and v.func.attr == "extend" and isinstance(v.func.value, ast.Name) and len(v.args) == 1 and not v.keywords:
+            x = v.func.value.id                             # x.extend(l): x ++ l
+            self.check_mutable(x, s)
+            if x not in env or not is_list(env[x]):
+                raise Untranslatable(s, f"`{x}` is not a bound list")
+            b, c, t = self.expr(v.args[0], env)
+            if not (is_list(t) and same(t, env[x])):
+                raise Untranslatable(s, f"extend of a {env[x]} by a {t}")
+            return self.bind_var(x, b, f"({ident(x)} ++ {c})", (t if env[x] == "list ?" else env[x]), env, nxt, s)
         if isinstance(v, ast.Call) and isinstance(v.func, ast.Attribute) and v.func.attr == "append" and isinstance(v.func.value, ast.Name) and len(v.args) == 1 and not v.keywords:
             x = v.func.value.id
             self.check_mutable(x, s)
@@ -1132,13 +1221,13 @@ class Fn:
         out = []
         for s in stmts:
             for n in ast.walk(s):
-                if isinstance(n, (ast.Return, ast.Break, ast.Continue, ast.FunctionDef, ast.While, ast.Yield)):
+                if isinstance(n, (ast.Return, ast.Break, ast.FunctionDef, ast.While, ast.Yield)):
                     raise Untranslatable(n, f"{type(n).__name__} inside a for loop")
                 if isinstance(n, ast.Name) and isinstance(n.ctx, ast.Store) and n.id not in out:
                     out.append(n.id)
                 if isinstance(n, ast.Subscript) and isinstance(n.ctx, ast.Store) and isinstance(n.value, ast.Name) and n.value.id not in out:
                     out.append(n.value.id)
-                if isinstance(n, ast.Call) and isinstance(n.func, ast.Attribute) and n.func.attr == "append" and isinstance(n.func.value, ast.Name) and n.func.value.id not in out:
+                if isinstance(n, ast.Call) and isinstance(n.func, ast.Attribute) and n.func.attr in ("append", "extend") and isinstance(n.func.value, ast.Name) and n.func.value.id not in out:
                     out.append(n.func.value.id)
                 if isinstance(n, ast.Call) and unp(n.func) in HEAPQ and n.args and isinstance(n.args[0], ast.Name) and n.args[0].id not in out:
                     out.append(n.args[0].id)
@@ -1158,14 +1247,9 @@ class Fn:
             raise Untranslatable(s, f"for loop over a {t}")
         if s.orelse:
             raise Untranslatable(s, "for loop with else")
-        if isinstance(s.target, ast.Tuple) and len(s.target.elts) == 2 and all(isinstance(e, ast.Name) for e in s.target.elts) \
-                and elem(t).startswith("(") and elem(t).count("*") == 1:           # for a, b in <list of pairs>
-            names, tys = [e.id for e in s.target.elts], elem(t)[1:-1].split(" * ")
-        elif isinstance(s.target, ast.Name):
-            names, tys = [s.target.id], [elem(t)]
-        else:
-            raise Untranslatable(s, "for target other than a name or a pair of names over a list of pairs")
-        x = ident(names[0]) if len(names) == 1 else "'(" + ", ".join(map(ident, names)) + ")"
+        xpat, xb = self.pattern(s.target, elem(t), s)        # for x in l / for a, (b, c) in <list of tuples>
+        names, tys = list(xb), list(xb.values())
+        x = xpat if isinstance(s.target, ast.Name) else "'" + xpat
         state = [v for v in self.assigned(s.body) if v in env and v not in names]
         if not state:
             raise Untranslatable(s, "for loop that re-binds no local bound before it")
@@ -1182,7 +1266,11 @@ class Fn:
                 if e.get(v) != env[v]:
                     refined[v] = e[v]                      # an empty display whose element type the loop body fixes
             return f"Ret {tup}"
-        body = self.block(s.body, e2, body_end)
+        self.loop_ends.append(body_end)                    # `continue` ends the body here
+        try:
+            body = self.block(s.body, e2, body_end)
+        finally:
+            self.loop_ends.pop()
         # names first bound inside the loop are not visible after it
         return self.wrap(b, f"bind (py_for (fun {pat} {x} =>\n{body}) {c} {tup}) (fun {pat} =>\n{nxt({**env, **refined})})")
 
@@ -1195,6 +1283,7 @@ class Translator:
     def __init__(self, repo: Path):
         self.repo = Path(repo)
         self.funcs: dict = {}          # python name -> {"coq", "params", "closure", "recursive", "ret", "owner"}: nested / recursive functions of the current target
+        self.procs: dict = {}          # module-level procedures (`-> None`, no return) of the current file (inlined at statement-level calls)
         self.helpers: dict = {}        # module-level functions of the current file that consist of one `return e` (inlined at calls)
         self.by_qual: dict = {}        # "Class.method" -> coq name of its translation (mode "alias")
         self.exported: dict = {}       # coq name -> the same for every top-level function translated so far (Target.calls)
@@ -1217,7 +1306,12 @@ class Translator:
         path = self.repo / tgt.file
         src = path.read_text()
         body = ast.parse(src).body
-        self.helpers = {}
+        self.helpers, self.procs = {}, {}
+        for fd in body:
+            if isinstance(fd, ast.FunctionDef) and fd.returns is not None and unp(fd.returns) == "None" and not fd.decorator_list \
+                    and not any(isinstance(x, (ast.Return, ast.Yield, ast.Global, ast.Nonlocal)) for x in ast.walk(fd)) \
+                    and not (fd.args.vararg or fd.args.kwarg or fd.args.kwonlyargs or fd.args.defaults):
+                self.procs[fd.name] = fd
         for fd in body:
             st = [x for x in fd.body if not (isinstance(x, ast.Expr) and isinstance(x.value, ast.Constant))] if isinstance(fd, ast.FunctionDef) else []
             if len(st) == 1 and isinstance(st[0], ast.Return) and st[0].value is not None and not fd.decorator_list \
@@ -1312,7 +1406,7 @@ class Translator:
                 p = parents.get(n)
                 safe = (isinstance(p, ast.Subscript) and p.value is n) or (isinstance(p, ast.BinOp) and isinstance(p.op, ast.Add)) \
                     or (isinstance(p, ast.Call) and unp(p.func) in ("len", "tuple", "list", "sum", "prod") and n in p.args) \
-                    or (isinstance(p, ast.Attribute) and p.attr in ("append", "sort") and p.value is n) or isinstance(p, ast.Return) \
+                    or (isinstance(p, ast.Attribute) and p.attr in ("append", "extend", "sort") and p.value is n) or isinstance(p, ast.Return) \
                     or (isinstance(p, ast.Call) and isinstance(p.func, ast.Attribute) and p.func.attr == "join" and n in p.args) \
                     or (isinstance(p, ast.Call) and unp(p.func) in HEAPQ and p.args and p.args[0] is n) \
                     or isinstance(p, ast.Starred) \
@@ -1425,6 +1519,17 @@ class Translator:
         params = self.signature(fdef, tgt, tgt.params)
         fn = Fn(self, tgt, fdef.name, False)
         fn.sites = self.sites_of(fdef)
+        fn.mutated = self.fresh_lists(fdef)
+        if tgt.drop:          # slicing: what the dropped statements write (names bound, receivers of method calls) is read by no kept statement
+            stmts = [x for top in fdef.body[:idx] for x in ast.walk(top) if isinstance(x, ast.stmt)]
+            dropped = [x for x in stmts if any(unp(x).startswith(pre) for pre in tgt.drop)]
+            inside = {id(y) for d in dropped for y in ast.walk(d)}
+            written = {y.id for d in dropped for y in ast.walk(d) if isinstance(y, ast.Name) and isinstance(y.ctx, ast.Store)} \
+                | {y.func.value.id for d in dropped for y in ast.walk(d) if isinstance(y, ast.Call) and isinstance(y.func, ast.Attribute) and isinstance(y.func.value, ast.Name)
+                   and (y.func.attr.endswith("_") or y.func.attr in ("append", "extend", "sort", "update", "setdefault", "pop", "insert", "remove", "clear", "reverse"))}
+            read = {y.id for top in fdef.body[:idx] for y in ast.walk(top) if isinstance(y, ast.Name) and isinstance(y.ctx, ast.Load) and id(y) not in inside}
+            if written & (read | set(tgt.returns)):
+                raise Untranslatable(tgt.qualname, f"dropped statements write {sorted(written & (read | set(tgt.returns)))}, which the slice reads")
 
         def done(e):
             missing = [v for v in tgt.returns if v not in e]
